@@ -52,7 +52,7 @@ def run_model(exe, cases, scratch, parts=6):
         with open(p, "w") as f:
             f.write("\n".join(lines[i * step:(i + 1) * step]) + "\n")
         procs.append(subprocess.Popen([exe, p], stdout=subprocess.PIPE, stderr=subprocess.STDOUT))
-    total, decs, mism, out, ok = 0, 0, 0, [], True
+    total, decs, mism, out, ok, ends = 0, 0, 0, [], True, []
     for pr in procs:
         try:
             o = pr.communicate(timeout=3000)[0].decode("utf-8", "replace")
@@ -60,6 +60,7 @@ def run_model(exe, cases, scratch, parts=6):
             pr.kill()
             o = "[model driver timeout]"
         m = re.search(r"CASES (\d+) DECODES (\d+) MISMATCHES (\d+)", o)
+        ends.extend(int(x) for x in re.findall(r"CASES-END (\d+)", o))
         if not m or pr.returncode != 0:
             ok = False
             out.append(o[-800:])
@@ -69,6 +70,10 @@ def run_model(exe, cases, scratch, parts=6):
         mism += int(m.group(3))
         if int(m.group(3)):
             out.append(o[:2500])
+    # the END marker (written last by the harness, with its own count) must have been reached exactly once
+    if len(ends) != 1 or ends[0] != total:
+        ok = False
+        out.append("END marker of the case file: %r, cases compared: %d" % (ends, total))
     return ok, total, decs, mism, "\n".join(out)
 
 
@@ -136,6 +141,8 @@ def vm_cross_check(ctx, drv, cases_path, n_layouts=240, n_hist=150):
 
 def run(ctx):
     ctx.level = "proof"
+    # floor on Decode calls actually judged (about half of a normal run); a run below it shows nothing
+    ctx.min_evaluations = 2000000 if ctx.tier == "thorough" else 150000
     status = vlib.proof_status(PID, extra_targets=["C02/Extract.v", "C02/CrossCheck.v"])
     ctx.proof_gate(status)
     drv = vlib.build_ocaml_driver("c02_driver", os.path.join(vlib.COQ, "extracted"),
@@ -177,11 +184,14 @@ def run(ctx):
     tm = re.search(r"TRACE HISTORIES (\d+) STEPS (\d+) MISMATCHES (\d+)", tlog)
     t_hist, t_steps, t_mism = (int(tm.group(1)), int(tm.group(2)), int(tm.group(3))) if tm else (0, 0, -1)
     new_fail = [s for s in summ["propfail"] if not any(k["signature"] == s for k in ctx.known_open)]
-    if (trc != 0 or t_mism != 0) and not new_fail:
+    tend = re.search(r"TRACE-END (\d+)", tlog)
+    trace_complete = tend is not None and int(tend.group(1)) == t_hist == summ.get("traced_histories", -1)
+    if (trc != 0 or t_mism != 0 or not trace_complete or t_steps == 0) and not new_fail:
         ctx.violation("c02-history-correspondence",
                       "the state machine of coq/C02/History.v (byte order of message and signals, geometry, layout order, Filters() after "
                       "every operation) disagrees with the implementation on %s of %s steps; filters_fresh / byte_order_propagates no "
-                      "longer speak about this code: %s" % (t_mism, t_steps, tlog[:900]),
+                      "longer speak about this code (trace complete: %s, histories replayed %s, harness traced %s): %s"
+                      % (t_mism, t_steps, trace_complete, t_hist, summ.get("traced_histories"), tlog[:900]),
                       {"correspondence": "props/C02 per-operation trace", "driver_output": tlog[:3000]}, found_input=False)
     if (not ok or mism != 0 or total != summ.get("cases", -1)) and not new_fail:
         ctx.violation("c02-correspondence",
